@@ -112,9 +112,15 @@ def parseListLine (l : List Char) : ListLine :=
 
 /-! ### YAML labels: any scalar -/
 
-/-- `sample['labels'][f]` is whatever YAML scalar the user wrote (`labels: [1, 2]` gives integers); the real code stores
-    it unchanged, `FileNameGrouper.get_group_id` returns it unchanged, and `write_string` accepts only `str` -/
+/-- `str(sample['labels'][f])` (repaired `get_samples_from_yaml`, candidate patch fix_D2): whatever YAML scalar the user
+    wrote (`labels: [1, 2]` gives integers) is stored by its printed value, so `FileNameGrouper.get_group_id` returns a
+    string and `write_string` accepts it -/
 def yamlLabelGroup : TagVal → Except InErr String
+  | v => .ok v.render
+
+/-- the pinned tree: the scalar is stored unchanged, `FileNameGrouper.get_group_id` returns it unchanged, and
+    `write_string` accepts only `str` (`TypeError`, the run aborts) -/
+def yamlLabelGroupOrig : TagVal → Except InErr String
   | .str s => .ok s
   | .int _ => .error .typeError
 
